@@ -560,6 +560,13 @@ func (mf *MultiFileAppendable) appendableFor(off int64) (appendable.Appendable, 
 
 	appID := appendableID(off, mf.fileSize)
 
+	if appID > mf.currAppID {
+		// chunks following the current one are not part of the appendable,
+		// their files may still exist after the offset was moved back with SetOffset
+		mf.mutex.Unlock()
+		return nil, os.ErrNotExist
+	}
+
 	if appID == mf.currAppID {
 		metricsCacheHit.Inc()
 		mf.maybePrefetchAheadLocked(appID)
